@@ -57,4 +57,43 @@ theorem single_body_fragment_never_reaches_handler_any_state (s : BSess) (cfg : 
     (serverDecisionB s cfg tbl rq).1.o.call = none :=
   decisionB_more_no_call s cfg tbl rq c num szx hu hcall hb hsingle
 
+/-! ### concrete instances (`decide`): the hypotheses are satisfiable, the re-assembly delivers once -/
+def bxB0 : Bytes := List.replicate 16 7
+def bxB1 : Bytes := List.replicate 16 9
+def bxTail : Bytes := [1, 2, 3]
+def bxOs (v : Bytes) : Opts := [(11, [97]), (27, v)]
+
+set_option maxRecDepth 20000 in
+/-- a 3-block upload in single-body mode on a session without a pending transfer: 2.31, 2.31, then ONE call with the
+concatenation (offset 0, total 35), the Block1 option removed from the handler's view, the lg_srcv gone -/
+example :
+    let r0 := putBlock 3 [] (some 0) (bxOs [0x08]) bxB0
+    let r1 := putBlock 3 r0.1 (some 0) (bxOs [0x18]) bxB1
+    let r2 := putBlock 3 r1.1 (some 0) (bxOs [0x20]) bxTail
+    r0.2 = .skip 95 [(27, [0x08])] false ∧ r1.2 = .skip 95 [(27, [0x18])] false ∧
+    r2 = ([], .call (bxB0 ++ bxB1 ++ bxTail) 0 35 [(11, [97])] [] false) := by decide
+
+set_option maxRecDepth 20000 in
+/-- the same blocks in per-block mode: each one is handed over with its place in the body -/
+example :
+    (putBlock 1 [] (some 0) (bxOs [0x08]) bxB0).2 = .call bxB0 0 17 (bxOs [0x08]) [(27, [0x08])] true ∧
+    (putBlock 1 [] (some 0) (bxOs [0x20]) bxTail).2 = .call bxTail 32 35 (bxOs [0x20]) [(27, [0x20])] false := by decide
+
+def bxCfg : Cfg := ⟨false, 8, []⟩
+def bxTbl : Table := ⟨none, none, [⟨[97], 127, 0, false⟩]⟩
+/-- CON PUT /a, Block1 NUM 0 More SZX 0, 16 bytes -/
+def bxRq : Request := ⟨false, ⟨0, 3, 0x2000, [0x20], bxOs [0x08], bxB0⟩, ⟨68, []⟩, .absent⟩
+/-- CON FETCH /a with Content-Format -/
+def bxFetch : Request := ⟨false, ⟨0, 5, 0x1000, [0x0f], [(11, [97]), (12, [0x32])], [113]⟩, ⟨69, [104, 105]⟩, .absent⟩
+
+set_option maxRecDepth 40000 in
+/-- the hypotheses of `single_body_fragment_never_reaches_handler` hold for the first block of a PUT after a FETCH on the
+same session at a context configured USE_LIBCOAP|SINGLE_BODY — and the outcome is the 2.31 with the Block1 echo, no
+handler, block mode 3 -/
+example :
+    (M.serverDecisionA false false bxCfg bxTbl bxRq).call = some ⟨.res 0, 3, [97], [], bxOs [0x08], bxB0⟩ ∧
+    (firstOpt (bxOs [0x08]) 27).bind block = some (0, true, 0) ∧
+    (runB bxCfg bxTbl (BHist.fresh 3) [⟨1, bxFetch⟩, ⟨1, bxRq⟩]).map (fun x => (x.1.o.replies.map (·.code), x.1.o.call.isSome, x.2)) =
+      [([69], true, 3), ([95], false, 3)] := by decide
+
 end Coap.C10
